@@ -100,7 +100,8 @@ class _Linalg:
             return np.sum(a, axis=axis)
         if ord == np.inf:
             a = _elementwise(lambda v: abs(tosym(v)), x)
-            return _reduce_cmp(np.asarray(a), axis, lambda p, q: bool(tosym(p) >= tosym(q)))
+            r = _reduce_cmp(np.asarray(a), axis, lambda p, q: bool(tosym(p) >= tosym(q)))
+            return r if isinstance(r, np.ndarray) else tosym(r)
         if ord not in (None, 2):
             raise NotImplementedError('symbolic norm ord=%r' % (ord,))
         s = np.sum(x * x, axis=axis)
